@@ -247,8 +247,8 @@ var _AOpContextTable = []_OpContextType{
 	AOR:     {Opcode: _OpBase_OP, ArgMarks: _ARG_RType, Funct3: 0b_110, Funct7: 0b_000_0000},
 	AAND:    {Opcode: _OpBase_OP, ArgMarks: _ARG_RType, Funct3: 0b_111, Funct7: 0b_000_0000},
 	AFENCE:  {Opcode: _OpBase_MISC_MEN, ArgMarks: _ARG_IType, Funct3: 0b_000}, // 伪指令同名, 两个参数都可选
-	AECALL:  {Opcode: _OpBase_SYSTEM, ArgMarks: _ARG_IType, Funct3: 0b_000},   // imm[11:0] = 0b000000000000
-	AEBREAK: {Opcode: _OpBase_SYSTEM, ArgMarks: _ARG_IType, Funct3: 0b_000},   // imm[11:0] = 0b000000000001
+	AECALL:  {Opcode: _OpBase_SYSTEM, Funct3: 0b_000},                         // no operands; imm[11:0] = 0b000000000000
+	AEBREAK: {Opcode: _OpBase_SYSTEM, Funct3: 0b_000},                         // no operands; imm[11:0] = 0b000000000001
 
 	// RV64I Base Instruction Set (in addition to RV32I)
 
